@@ -1083,7 +1083,7 @@ class HttpPayloadParser:
 
                         if not re.fullmatch(HEXDIGITS, size_b):
                             exc = TransferEncodingError(
-                                chunk[:pos].decode("ascii", "surrogateescape")
+                                chunk[:pos].decode("ascii", "backslashreplace")
                             )
                             self._set_payload_exception(exc)
                             raise exc
